@@ -15,7 +15,11 @@ pub fn read_ndjson(path: &str) -> Vec<Value> {
         if t.is_empty() {
             continue;
         }
-        out.push(serde_json::from_str(t).unwrap_or_else(|e| panic!("bad json in {}: {}", path, e)));
+        // generated trees nest 64 frames deep (Gen!DeepTrees): lift serde_json's 128-level limit
+        let mut de = serde_json::Deserializer::from_str(t);
+        de.disable_recursion_limit();
+        let v: Value = serde::Deserialize::deserialize(&mut de).unwrap_or_else(|e| panic!("bad json in {}: {}", path, e));
+        out.push(v);
     }
     out
 }
@@ -106,12 +110,27 @@ pub fn install_quiet_panic_hook() {
     if QUIET.swap(true, Ordering::SeqCst) {
         return;
     }
-    panic::set_hook(Box::new(|_| {}));
+    if std::env::var_os("HARNESS_LOUD").is_some() {
+        return;
+    }
+    // silent inside `guarded` (code under test), one line for a panic of the harness itself (a tool error)
+    panic::set_hook(Box::new(|info| {
+        if GUARD_DEPTH.with(|d| d.get()) == 0 {
+            eprintln!("harness panic: {}", info);
+        }
+    }));
+}
+
+thread_local! {
+    static GUARD_DEPTH: std::cell::Cell<u32> = std::cell::Cell::new(0);
 }
 
 /// Run `f`, returning Err(message) if it panics.
 pub fn guarded<T, F: FnOnce() -> T + panic::UnwindSafe>(f: F) -> Result<T, String> {
-    match panic::catch_unwind(f) {
+    GUARD_DEPTH.with(|d| d.set(d.get() + 1));
+    let r = panic::catch_unwind(f);
+    GUARD_DEPTH.with(|d| d.set(d.get().saturating_sub(1)));
+    match r {
         Ok(v) => Ok(v),
         Err(e) => {
             let msg = if let Some(s) = e.downcast_ref::<&str>() {
